@@ -314,3 +314,61 @@ Example c09_example_big_last_wins :
 Proof. exact big_last_wins. Qed.
 Print Assumptions c09_reorder_keeping_names. Print Assumptions c09_stable_sort_by_name_transparent. Print Assumptions c09_unstable_sort_by_name_refuted.
 Print Assumptions c09_example_big_last_wins.
+
+(* ---- relations that NEVER receive a tuple: optional inputs nobody fills (Pack/PackDeadRules.v; tie: family `opt` of gen/c09_dead.py) ----
+   c09_init_is_input above is unconditional in the plan, so it covers programs with aggregates; with the stratified engine theorem
+   (C04, Engine/MainAgg.v) the run block of ascent_run! on a validated plan of a program WITH aggregates / negation returns the
+   stratified model over the initialisers' tuples.  No hypothesis asks a relation to have an initialiser or a rule that can fire: a
+   relation that is declared and never filled is absent from `inits`, and count / sum / not() over it fire (0 / 0 / holds) as the
+   specification says *)
+From AV Require Import Engine.Interface.
+From AV Require Import Engine.InterfaceAgg.
+From AV Require Import Engine.Strat.
+From AV Require Import Engine.StratFixed.
+From AV Require Import Engine.SemiNaiveAgg.
+From AV Require Import Pack.PackDeadRules.
+Theorem c09_ascent_run_stratified_model : forall (I : interp) swap arities P pl fuel (inits : list (rel * list tuple)) st,
+  arities_functional arities -> wf_facts arities (assign_inits inits) = true -> NoDup (assign_inits inits) ->
+  agg_perm_invariant I ->
+  validate arities P pl = true ->
+  ascent_run_code I swap fuel pl inits = Some st ->
+  stratified (plan_strata P pl) = true
+  /\ (forall r, In r P <-> In r (concat (plan_strata P pl)))
+  /\ strat_model_fixed I (plan_strata P pl) (assign_inits inits) (rows st)
+  /\ NoDup (rows st)
+  /\ exists added, rows st = assign_inits inits ++ added.
+Proof. exact ascent_run_strat_model. Qed.
+(* computed, on the plan the macro produces for
+     nblk(n as i32) <-- agg n = count() in blk(_);   cost(x, t) <-- start(x), agg t = sum(wv) in w(x, wv);
+     lo(x, m) <-- start(x), agg m = min(wv) in w(x, wv);   out(x, k) <-- cost(x, t), nblk(k), !lo(x, _);
+   with `relation start(i32) = vec![(1,), (2,)]` the only initialiser (blk, w: never filled): nblk(0), cost(x, 0) and out(x, 0) are derived,
+   lo is not; the specification oracle strat_fix derives exactly the same facts *)
+Example c09_example_count_over_never_filled :
+  option_map rows (ascent_run_code std_interp std_swap 20 opt_plan opt_inits) = Some opt_result
+  /\ In (3%nat, [0]) opt_result /\ In (4%nat, [1; 0]) opt_result /\ In (6%nat, [2; 0]) opt_result
+  /\ filter (fun f => Nat.eqb (fst f) 5) opt_result = []
+  /\ option_map (fun fs => forallb (fun f => existsb (fact_eqb f) opt_result) fs && forallb (fun f => existsb (fact_eqb f) fs) opt_result)
+                (strat_fix std_interp 20 (plan_strata opt_rules opt_plan) (assign_inits opt_inits)) = Some true.
+Proof. exact opt_example. Qed.
+Example c09_example_yields_on_empty : map (yields_on_empty std_interp) [0; 1; 2; 3; 4]%nat = [true; true; false; false; true].
+Proof. exact std_yields_on_empty. Qed.
+(* about a VARIANT only (not the code's; the class of the seeded change C09_ascent_run_dead_rule_elimination_count_sum): a dead-rule
+   elimination for ascent_run! that keeps a rule only if every clause AND every aggregate other than negation ranges over a relation
+   that is initialised, head of a surviving rule or dynamic in its SCC ("count / sum have nothing to aggregate").  On a validated
+   program it deletes every rule — the run returns the initialisers' tuples alone — while the block as generated derives nblk(0) *)
+Theorem c09_dead_rules_count_sum_like_clause_refuted :
+  exists arities P pl inits,
+    validate arities P pl = true /\ wf_facts arities (assign_inits inits) = true
+    /\ option_map rows (ascent_run_code std_interp std_swap 20 pl inits) = Some opt_result
+    /\ option_map rows (ascent_run_pruned negation_only std_interp std_swap 20 pl inits) = Some (assign_inits inits)
+    /\ prune negation_only (map fst inits) pl = []
+    /\ In (3%nat, [0]) opt_result /\ ~ In (3%nat, [0]) (assign_inits inits).
+Proof. exact dead_rules_negation_only_refuted. Qed.
+(* the same pass with every aggregator that yields on the empty input exempt leaves the instance alone (only the rule of min goes);
+   its correctness for all programs is NOT proved here *)
+Example c09_example_dead_rules_yielding_exempt :
+  option_map rows (ascent_run_pruned (yields_on_empty std_interp) std_interp std_swap 20 opt_plan opt_inits) = Some opt_result
+  /\ length (prune (yields_on_empty std_interp) (map fst opt_inits) opt_plan) = 3%nat.
+Proof. exact dead_rules_yielding_exempt_example. Qed.
+Print Assumptions c09_ascent_run_stratified_model. Print Assumptions c09_example_count_over_never_filled. Print Assumptions c09_example_yields_on_empty.
+Print Assumptions c09_dead_rules_count_sum_like_clause_refuted. Print Assumptions c09_example_dead_rules_yielding_exempt.
